@@ -39,7 +39,10 @@ THOROUGH = {
     "C19": ["memcheck", "asan"],
     "C20": ["release-plain", "miri"],
 }
-QUICK_EXTRA = {"C18": ["memcheck"], "C19": ["memcheck"]}
+# quick tier: native, plus plain release where the crate's own debug assertions would otherwise turn a
+# wrong length into a panic (which C01/C06/C12 do not judge), plus memcheck for the unsafe file/dir code
+QUICK_EXTRA = {"C01": ["release-plain"], "C06": ["release-plain"], "C07": ["release-plain"], "C12": ["release-plain"], "C20": ["release-plain"],
+               "C18": ["memcheck"], "C19": ["memcheck"]}
 
 # per-leg case budgets (cases per shard process) for the slow tools
 MIRI_SHARDS = NCPU
